@@ -1,6 +1,7 @@
 package client
 
 import (
+	sdk "github.com/cosmos/cosmos-sdk/types"
 	"github.com/teleport-network/teleport/x/xibc/core/client/types"
 	rt "github.com/teleport-network/teleport/zzverifrt"
 )
@@ -28,7 +29,7 @@ func VerifC13Relayers() {
 	n := rt.IntRange("relayers", 2, 3)
 	var regs []types.IdentifiedRelayer
 	for i := 0; i < n; i++ {
-		r := types.IdentifiedRelayer{Address: rt.StrN("relayer.address", 8)} // the shortest strings bech32 admits
+		r := types.IdentifiedRelayer{Address: sdk.AccAddress(rt.BytesN("relayer.address", 20)).String()} // real bech32 account addresses, in any order
 		for _, o := range regs {
 			rt.Assume(o.Address != r.Address)
 		}
